@@ -6,6 +6,7 @@ import (
 	"fmt"
 	"math/rand"
 	"sort"
+	"sync"
 	"time"
 
 	"github.com/andres-erbsen/clock"
@@ -283,7 +284,12 @@ func run(c *eng.Ctx) error {
 		peers[i] = core.PeerIDFixture()
 		names[peers[i]] = fmt.Sprintf("p%d", i+1)
 	}
-	c.Traces(n, func(t int, rng *rand.Rand) {
+	nstorm := c.N(2, 6)
+	c.Traces(n+nstorm, func(t int, rng *rand.Rand) {
+		if t >= n {
+			storm(c, t, rng, peers[0])
+			return
+		}
 		scn := "rand"
 		if t >= n-nf15 { // last, so that a rejected scenario trace leaves little to re-validate
 			scn = "f15"
@@ -325,4 +331,52 @@ func run(c *eng.Ctx) error {
 		d.tick(timeout + 1)
 	})
 	return nil
+}
+
+// storm: rounds of REAL concurrency: eight goroutines reserve disjoint pieces for one peer at the same time on a manager
+// that holds nothing else; the peer's pending pieces are recorded once all have returned (spec/p2p/PieceRequestsStorm.tla).
+func storm(c *eng.Ctx, t int, rng *rand.Rand, peer core.PeerID) {
+	const ng = 8
+	limit := 1 + rng.Intn(3)
+	c.W.Reset(t, map[string]any{"scn": "storm", "tracespec": "storm", "limit": limit})
+	rounds := c.N(1500, 3000)
+	for r := 0; r < rounds; r++ {
+		m, err := piecerequest.NewManager(clock.NewMock(), time.Hour, piecerequest.DefaultPolicy, limit, limit)
+		if err != nil {
+			panic(err)
+		}
+		counters := syncutil.NewCounters(ng)
+		granted := make([][]int, ng)
+		var wg sync.WaitGroup
+		start := make(chan struct{})
+		for g := 0; g < ng; g++ {
+			wg.Add(1)
+			go func(g int) {
+				defer wg.Done()
+				b := bitset.New(ng)
+				b.Set(uint(g))
+				<-start
+				res, err := m.ReservePieces(peer, false, b, counters, false)
+				if err == nil {
+					granted[g] = res
+				}
+			}(g)
+		}
+		close(start)
+		wg.Wait()
+		var all []int
+		for _, g := range granted {
+			all = append(all, g...)
+		}
+		sort.Ints(all)
+		pend := m.PendingPieces(peer)
+		sort.Ints(pend)
+		if all == nil {
+			all = []int{}
+		}
+		if pend == nil {
+			pend = []int{}
+		}
+		c.W.Ev("Round", "limit", limit, "asked", ng, "granted", all, "pending", pend)
+	}
 }
